@@ -192,6 +192,28 @@ Definition p_c02 (st : step) : option N :=
                            | None => true end) infos)
   ].
 
+(* the (on_ok node, on_err node) pairs of the reply handlers of every sub-message of a tree, at every depth
+   (the sub-messages of reply handlers included) *)
+Definition prog_node (p : prog) : N := match p with Prog n _ _ => n end.
+Fixpoint rpairs_msg (m : msg) : list (N * N) :=
+  match m with
+  | MExec _ p _ | MInst _ p _ _ _ _ | MMigrate _ _ p => rpairs_prog p
+  | _ => []
+  end
+with rpairs_prog (p : prog) : list (N * N) :=
+  match p with Prog _ _ out => match out with OFail => [] | OResp _ _ _ sbs => rpairs_subs sbs end end
+with rpairs_subs (l : subs) : list (N * N) :=
+  match l with SNil => [] | SCons sb r => rpairs_sub sb ++ rpairs_subs r end
+with rpairs_sub (sb : sub) : list (N * N) :=
+  match sb with
+  | Sub _ _ _ m on_ok on_err => (prog_node on_ok, prog_node on_err) :: rpairs_msg m ++ rpairs_prog on_ok ++ rpairs_prog on_err
+  end.
+Definition rpairs_op (op : topop) : list (N * N) :=
+  match op with
+  | TWasmSudo _ p => rpairs_prog p
+  | _ => flat_map rpairs_msg (top_msgs op)
+  end.
+
 (* ---------- C03: replies ---------- *)
 Definition p_c03 (st : step) : option N :=
   let infos := flat_op (st_op st) in
@@ -222,7 +244,10 @@ Definition p_c03 (st : step) : option N :=
            end) tr);
     (* 7: a reply with Ok carries exactly the events/data of a LEAF execute sub-message it answers:
           entry event, wasm event iff attributes, renamed custom events; data wrapped *)
-    (7, true)
+    (7, true);
+    (* 8: "reply is invoked exactly once ... and never otherwise": of the two reply handlers of a sub-message (the one
+          for success, the one for failure) at most one is ever entered, for every sub-message at every depth *)
+    (8, forallb (fun pr => negb (memN (fst pr) (call_nodes tr) && memN (snd pr) (call_nodes tr))) (rpairs_op (st_op st)))
   ].
 
 (* ---------- C04: events and data of leaf calls ---------- *)
